@@ -12,7 +12,7 @@ def claim(pid, technique, text, note, ref):
 COMMON_NOTE = ("Trusted: Coq 8.16.1 kernel + vm_compute; translator tools/translate.py; extraction (ExtrOcamlBasic only) and "
                "ocaml/driver.ml; Rust harness and generators; hand-entered RFC/IANA reference data. Modelled, not verified: "
                "coset's control flow (hand transliteration tied by the correspondence run), ciborium 0.2.2, Rust std semantics. "
-               "All property theorems are closed under the global context (no axioms).")
+               "All property theorems are closed under the global context (no axioms). The Rust harness is built in release mode WITH overflow checks, so arithmetic overflow in the crate is observed as a panic.")
 
 claim("C16", "Coq proof (order laws + equality with lexicographic / length-first order of RFC 8949 deterministic encodings) + model/implementation correspondence on label pairs",
       "Machine-checked theorems over all labels (unbounded integers/texts) that the model's Ord is the order of the deterministic encodings and a total order consistent with equality; the model is tied to the Rust code by running both on all pairs of a boundary palette and comparing with an independent Python comparison of encodings.",
